@@ -1,8 +1,8 @@
 package gen
 
 import (
-	"strings"
 	"fmt"
+	"strings"
 
 	"verif/harness/internal/core"
 	"verif/harness/internal/model"
